@@ -982,6 +982,7 @@ pub fn c09_parts(quick: bool) -> (Vec<EwSpec>, Vec<Scenario>) {
     use SendMode::*;
     let loads: Vec<(&str, Vec<(u8, SendMode, usize)>)> = vec![
         ("none", vec![]), ("one", vec![(0, Reliable, 100)]), ("empty-marker", vec![(0, Reliable, 0)]), ("data-then-empty-marker", vec![(0, Reliable, 700), (1, Unreliable, 0), (0, Reliable, 0)]), ("three-mixed", vec![(0, Reliable, 3000), (1, Unreliable, 50), (0, Reliable, 20)]),
+        ("full-frames-mixed", vec![(0, Reliable, 1448), (1, Unreliable, 1448), (0, Reliable, 1448), (1, Unreliable, 1447)]),
         ("eight", (0..8).map(|i| ((i % 2) as u8, if i % 3 == 2 { Persistent } else { Reliable }, if i == 4 { 5000 } else { 200 + i })).collect()),
     ];
     for (lname, load) in loads {
